@@ -7,7 +7,9 @@
 (*                                             the printed number, most significant first; at = index of    *)
 (*                                             the emission the harness proposes (TLC verifies it)          *)
 (*  ENDROWS                                    end of the listing body: the open group must be complete     *)
-(*  SYM      [src, name, val]                  a symbol report line (listing table, MAP, NoICE, share file)  *)
+(*  SYM      [src, name, val, fmt]             a symbol report line (listing table, MAP, NoICE, share file);  *)
+(*                                             val = canonical hexadecimal text of the 64-bit value,         *)
+(*                                             fmt = number format of a share line ("" otherwise)            *)
 (*  MAPLINE  [seg, line, addr, at]             MAP / NoICE / Atmel line-address entry                        *)
 (*  EMITS                                      every emission of the final pass is in the code file          *)
 (*  RESET                                                                                                   *)
@@ -80,7 +82,7 @@ OK(e) ==
          ELSE IF e.cont THEN (IF g.q = 0 THEN FALSE ELSE g.line = e.line /\ RowOK(e, g.q, g.off, g.big))
          ELSE GroupDone /\ e.at >= ep /\ RowOK(e, e.at, 0, "?")        \* rows and emissions come in the same order
     [] e.a = "ENDROWS" -> GroupDone
-    [] e.a = "SYM"   -> IF e.name \in DOMAIN Ctx.syms THEN Ctx.syms[e.name] = e.val ELSE FALSE
+    [] e.a = "SYM"   -> IF e.name \in DOMAIN Ctx.syms THEN Ctx.syms[e.name] = e.val /\ e.fmt \in ShareFormats(e.src) ELSE FALSE
     [] e.a = "MAPLINE" -> IF e.at >= 1 /\ e.at <= Len(Ctx.emits)
                           THEN Ctx.emits[e.at].k \in {"emit", "reserve"}
                                /\ MapEntryJustified([seg |-> e.seg, line |-> e.line, addr |-> e.addr], <<Em(e.at)>>)
